@@ -777,6 +777,7 @@ def classify_failure(cuqi, plan, target):
             made[k] = idx
             idx += 1
     changed = set()
+    not_inplace_array = []      # `_constant` changes that are NOT the in-place update of one and the same ndarray
     operand_cls = "?"
     for k in keep:
         op = dict(plan["ops"][k])
@@ -802,8 +803,13 @@ def classify_failure(cuqi, plan, target):
                     for f in set(fb) | set(fa):
                         if fb.get(f) != fa.get(f) and f not in CACHE_FIELDS and not fb.get("__class__", "").startswith('VStr "Scratch.'):
                             changed.add(f)
+                            if f == "_constant":
+                                mb = re.match(r"VArr \((-?\d+)\)%Z", fb.get(f) or "")
+                                ma = re.match(r"VArr \((-?\d+)\)%Z", fa.get(f) or "")
+                                if not (mb and ma and mb.group(1) == ma.group(1)):
+                                    not_inplace_array.append(l)
     if cop["op"] in ("cond", "condpos") and operand_cls in ("JointDistribution", "MultipleLikelihoodPosterior", "_StackedJointDistribution") \
-            and changed == {"_constant"}:
+            and changed == {"_constant"} and not not_inplace_array:
         return SIG_CONST, c
     if changed == {"_geometry"}:
         return SIG_GEOM, c
@@ -910,7 +916,7 @@ def run(ctx):
         tr["n_writes"], len(tr["files"]), tr["constant_aug_assign"], "" if not tr["failed"] else "  FAILED: " + "; ".join(tr["failed"])[:500]))
 
     # ---- interleavings -----------------------------------------------------------------------------------------------
-    nseq = ctx.n(16, 120)
+    nseq = ctx.n(16, 150)
     nops = ctx.n(12, 30)
     INTERN.names.clear()
     INTERN.active = True
@@ -1085,6 +1091,18 @@ def fixed_plans(cuqi):
         {"op": "tolik", "i": 4, "name": "y", "k": 2, "makes": True},             # 10
         {"op": "apply", "i": 0, "j": 3, "makes": True},                           # 11
         {"op": "logd", "i": 4, "names": ["x", "l", "y"], "k": 0, "makes": False},
+    ]})
+    # the documented Gibbs example (GMRF prior, two Gamma hyper-priors), both sampler interfaces, then the target again
+    P.append({"graph": "gmrf", "variant": 0, "n0": 6, "ops": [
+        {"op": "cond", "i": 5, "names": ["y"], "k": 0, "makes": True},           # 6
+        {"op": "logd", "i": 6, "names": ["d", "l", "x"], "k": 1, "makes": False},
+        {"op": "gibbs", "i": 6, "iface": "new", "Ns": 3, "seed": 4, "makes": False},
+        {"op": "gibbs", "i": 6, "iface": "legacy", "Ns": 3, "seed": 5, "makes": False},
+        {"op": "cond", "i": 6, "names": ["d", "l"], "k": 0, "makes": True},      # 7
+        {"op": "mh", "i": 7, "iface": "new", "Ns": 3, "seed": 2, "makes": False},
+        {"op": "mh", "i": 7, "iface": "legacy", "Ns": 3, "seed": 2, "makes": False},
+        {"op": "logd", "i": 6, "names": ["d", "l", "x"], "k": 1, "makes": False},
+        {"op": "logd", "i": 5, "names": ["d", "l", "x", "y"], "k": 1, "makes": False},
     ]})
     P.append({"graph": "lognormal", "variant": 0, "n0": 4, "ops": [
         {"op": "cond", "i": 1, "names": ["z"], "k": 0, "makes": True},           # 4
